@@ -319,6 +319,9 @@ func runC02(r *mc.Run) {
 		{"mixed-fileT-inlineF", &ccpb.RootOfTrust{CabundlePaths: []string{fT}, Cabundles: []string{string(world.PEM(F.Root))}}, []bool{true, true}},
 		{"mixed-fileF-inlineT", &ccpb.RootOfTrust{CabundlePaths: []string{fF}, Cabundles: []string{string(world.PEM(T.Root))}}, []bool{true, true}},
 		{"inline-empty-string", &ccpb.RootOfTrust{Cabundles: []string{""}}, []bool{false, false}},
+		{"inline-newline", &ccpb.RootOfTrust{Cabundles: []string{"\n"}}, []bool{false, false}},
+		{"inline-blank+file-empty", &ccpb.RootOfTrust{Cabundles: []string{"  \n"}, CabundlePaths: []string{fEmpty}}, []bool{false, false}},
+		{"inline-T+inline-empty", &ccpb.RootOfTrust{Cabundles: []string{string(world.PEM(T.Root)), ""}}, []bool{true, false}},
 		{"inline-text", &ccpb.RootOfTrust{Cabundles: []string{"hello"}}, []bool{false, false}},
 		{"inline-other-block-type", &ccpb.RootOfTrust{Cabundles: []string{string(world.PEMBlock("PUBLIC KEY", T.Root.Raw))}}, []bool{false, false}},
 		{"file-text", &ccpb.RootOfTrust{CabundlePaths: []string{fText}}, []bool{false, false}},
@@ -370,6 +373,35 @@ func runC02(r *mc.Run) {
 			}
 			r.Eval(id, true, "config:"+out)
 		}
+	}
+	// Intel's sample quote against every configuration: only a configuration that lists nothing at all
+	// falls back to the embedded Intel root; one that names bundles trusts exactly what they contain.
+	for _, cfg := range cfgs {
+		id := fmt.Sprintf("config/%s/intel-sample-quote", cfg.name)
+		if !r.Want(id) {
+			continue
+		}
+		var opts *verify.Options
+		var cerr error
+		func() { defer world.Recover(&cerr); opts, cerr = verify.RootOfTrustToOptions(cfg.rot) }()
+		out := "config-error"
+		if cerr == nil && opts != nil {
+			now := world.TimeSetAt(intelRefTime)
+			opts.Now = &now
+			opts.GetCollateral, opts.CheckRevocations = false, false
+			err := world.SafeVerifyRaw(testdata.RawQuote, opts)
+			out = verdict(err)
+			fallsBack := len(cfg.rot.CabundlePaths) == 0 && len(cfg.rot.Cabundles) == 0
+			switch {
+			case err == nil && !fallsBack:
+				r.Violate("config:trusts-embedded-root-although-bundles-named:"+cfg.name, id, "the configuration names bundles (none of which contains Intel's root) but a quote under the embedded Intel root is accepted", nil)
+				out = "accept!"
+			case err != nil && fallsBack && !world.IsPanic(err):
+				r.Violate("config:no-fallback-to-embedded-root", id, "a configuration without any bundle must fall back to the embedded Intel root: "+errStr(err), nil)
+				out = "reject!"
+			}
+		}
+		r.Eval(id, true, "config-intel:"+out)
 	}
 	// Intel's own sample quote: accepted under the embedded root at its reference time, rejected under {T}.
 	for _, pc := range []struct {
